@@ -55,10 +55,13 @@ func createSegment(name string, opt Options) (err error) {
 	if err = f.Truncate(size); err != nil {
 		return
 	}
+	verifPoint(filepath.Dir(name), "createSegment.truncated")
 	if _, err = f.WriteAt(make([]byte, 16), size-16); err != nil {
 		return
 	}
+	verifPoint(filepath.Dir(name), "createSegment.written")
 	err = f.Sync()
+	verifPoint(filepath.Dir(name), "createSegment.synced")
 	return
 }
 
